@@ -255,8 +255,16 @@ func (api *API) mapEncodeStructFields(
 				}
 				fieldValue = fieldValue.Elem()
 				fieldType = fieldType.Elem()
+				// an embedded pointer counts as a nesting level (as in mapDecodeStructFields)
+				if opts.encodeDepth++; opts.encodeDepth > maxDecodeDepth {
+					return ierrors.Errorf("exceeded the maximum nesting depth of %d", maxDecodeDepth)
+				}
 			}
-			if err := api.mapEncodeStructFields(ctx, obj, fieldValue, fieldType, keysOfType, opts); err != nil {
+			err := api.mapEncodeStructFields(ctx, obj, fieldValue, fieldType, keysOfType, opts)
+			if sField.fType.Kind() == reflect.Ptr {
+				opts.encodeDepth--
+			}
+			if err != nil {
 				return ierrors.Wrapf(err, "can't serialize embedded struct %s", sField.name)
 			}
 
